@@ -25,6 +25,8 @@ def run(ck, facts):
     ck.rule("R1", "attribute agreement: every #[diplomat::X] the AST layer gives meaning to is accepted (not panicked on) by the bridge macro")
     ck.rule("R2", "strip coverage: for every syn node kind whose attributes the AST layer reads, the macro extracts (strips) that node's attributes, so rustc never sees diplomat attributes")
     ck.rule("R3", "use => include pairing: every generator arm that names a custom type also records the include / forward declaration for the same id, through the same path formatter that names generated files; C++ relative include paths are computed per path component")
+    ck.rule("R5", "no dangling names in generated files: both payloads of a C result union pass the zero-sized-struct filter before being named; the JS generator removes the "
+                  "self-import under the emitted (renamed) type name; every extern fn template of the macro carries the method's #[cfg]")
     ck.rule("R4", "identifier escaping: every emitted C/C++ parameter name passes through fmt_identifier, whose C table covers the C keywords and whose C++ table covers the C++ keywords")
     ck.not_decided += ["that any generated file compiles or parses (needs the compilers)"]
 
@@ -188,3 +190,74 @@ def run(ck, facts):
         ck.expect(not miss_cpp, "R4", "fmt_identifier/C++-keywords", "table %s: %d words" % (cpp_tab, len(cppset)), "in C++ mode fmt_identifier consults %s, which misses %s" % (cpp_tab, miss_cpp), C.loc(fi))
         esc = any(re.fullmatch(r"\{name\}_", s) for s in C.str_lits(C.fn_body(fi)))
         ck.expect(esc, "R4", "fmt_identifier/escape-form", "{name}_", "reserved words are no longer escaped by appending an underscore", C.loc(fi))
+
+
+    # ---------------- R5 sibling agreement / dangling names
+    # (a) C result union: ok and err payloads are treated alike, and zero-field structs (which have no C definition) never become members
+    grt = tool.fn("c::ty::TyGenContext::gen_result_ty")
+    gb = C.fn_body(grt)
+    rebound = {}
+    for n in C.walk(gb):
+        if n.get("k") == "letst" and isinstance(n.get("pat"), dict) and n["pat"].get("k") == "bind" and n["pat"].get("n") in ("ok_ty", "err_ty"):
+            rebound.setdefault(n["pat"]["n"], set()).add(n["pat"].get("id"))
+    closures = {}
+    for n in C.walk(gb):
+        if n.get("k") == "letst" and isinstance(n.get("pat"), dict) and n["pat"].get("k") == "bind" and n.get("init") and C.strip(n["init"]).get("k") == "closure":
+            closures[n["pat"].get("id")] = C.strip(n["init"])
+    for name in ("ok_ty", "err_ty"):
+        is_param = lambda x: x.get("k") == "local" and x.get("n") == name and x.get("id") not in rebound.get(name, set())
+        uses = [x for x in C.walk(gb) if is_param(x)]
+        filt = []
+        for n in C.walk(gb):
+            if n.get("k") == "mcall" and n.get("m") == "filter" and is_param(C.strip(n["recv"])):
+                pred = C.strip(n["a"][0])
+                if pred.get("k") == "local":
+                    pred = closures.get(pred.get("id"), pred)
+                zst = any(x.get("k") == "mcall" and x.get("m") == "is_empty" and any(y.get("k") == "field" and y.get("n") == "fields" for y in C.walk(x["recv"])) for x in C.walk(pred))
+                filt.append(zst)
+        ok_ = filt == [True] and len(uses) == 1
+        ck.expect(ok_, "R5", "c::gen_result_ty/%s-filtered" % name, "parameter used once, as receiver of the zero-field-struct filter",
+                  "the `%s` payload of the result union is used %d times unfiltered / filtered %s: a zero-field struct (which gets no C definition) can become a union member, the header names an undefined type" % (name, len(uses), filt), C.loc(grt))
+    # (b) JS: the import removed for the file being generated is keyed by the emitted type name
+    jr = tool.fn("js::run")
+    defs = flow.defs_of(jr)
+    nrm = 0
+    for n in C.walk(C.fn_body(jr)):
+        if n.get("k") == "mcall" and n.get("m") == "remove_import" and n.get("a"):
+            nrm += 1
+            leaves = set(flow.trace(n["a"][0], defs))
+            for mnode in C.walk(n["a"][0]):
+                if mnode.get("k") == "macro" and mnode.get("name") == "format":
+                    for y in C.walk(mnode):
+                        if y.get("k") == "field" and "TyGenContext" in (y.get("bty") or ""):
+                            leaves.add(("field", y["n"], y.get("bty")))
+                        if y.get("k") == "mcall" and y.get("m") in ("name", "as_str") and "TypeDef" in (y.get("rty") or ""):
+                            leaves.add(("call", y.get("p") or "name"))
+                        if y.get("k") == "local" and y.get("n") not in ("args", "context") and not str(y.get("n")).startswith("arg"):
+                            leaves |= set(flow.trace(y, defs))
+            flds = sorted({l[1] for l in leaves if l[0] == "field"})
+            calls = sorted({l[1].split("::")[-1] for l in leaves if l[0] == "call"})
+            ck.expect(flds == ["type_name"] and "name" not in calls, "R5", "js::run/remove_import#%d" % nrm, "keyed by context.type_name",
+                      "the self-import is removed under a name derived from %s %s instead of the emitted `context.type_name`: a type renamed for JS keeps an import of itself (duplicate declaration)" % (flds, calls), C.loc(jr, n.get("ln")))
+    if nrm < 2:
+        ck.bad("R5", "js::run/remove_import-floor", "expected 2 self-import removals (type and `_obj`), found %d" % nrm, C.loc(jr))
+    # (c) macro: every template that defines an extern "C" fn carries #[no_mangle] and the method's #cfg
+    mac = facts.macro
+    nt = 0
+    for f in mac.fn_list:
+        if "hir" not in f:
+            continue
+        for n in C.walk(C.fn_body(f)):
+            if n.get("k") == "macro" and n.get("name") in ("parse_quote", "quote"):
+                src = n.get("src", "")
+                if re.search(r'extern\s*"C"\s*fn\s*#', src):
+                    nt += 1
+                    flat_src = re.sub(r"\s+", " ", src)
+                    has_nm = re.search(r"#\s*\[\s*no_mangle\s*\]", flat_src) is not None
+                    has_cfg = re.search(r"#\s*cfg\b", flat_src) is not None
+                    needs_cfg = any(x.get("k") == "local" and x.get("n") == "cfg" for x in C.walk(C.fn_body(f))) or "cfg" in [p_.get("n") for p_ in f.get("params", []) if isinstance(p_, dict)]
+                    key = "%s/extern-template#%d" % (f["name"], sum(1 for i in ck.instances if i["rule"] == "R5" and i["key"].startswith(f["name"] + "/extern-template")))
+                    ck.expect(has_nm and (has_cfg or not needs_cfg), "R5", key, "#[no_mangle]%s" % (" #cfg" if has_cfg else ""),
+                              "an extern \"C\" fn template in %s lacks %s: the shim is emitted even when the method it calls is compiled out by #[cfg] (or is mangled)" % (f["name"], "#cfg" if has_nm else "#[no_mangle]"), C.loc(f, n.get("ln")))
+    if nt < 3:
+        ck.bad("R5", "macro/extern-template-floor", "only %d extern fn templates found in the macro (3 counted)" % nt)
